@@ -62,3 +62,53 @@ def impl(op, a, ctx):
     tx = line_to_tx(F); i = F.nat()
     spks = [Script(s) for s in F.list(F.toks)]; amts = F.list(F.int); ext = F.nat(); leaf = F.toks(); ht = F.nat(); F.done()
     return 'ok ' + hx(tx.get_transaction_taproot_digest(i, spks, amts, ext, Script(leaf), sighash=ht))
+
+
+# ---- real-chain signature oracle
+from harness import fxsig as _S
+_base_cases = cases
+_base_impl = impl
+_spends = {}
+
+
+def _all_spends():
+    if not _spends:
+        for x in _S.taproot_spends(): _spends[(x[1], x[2])] = x
+    return _spends
+
+
+def cases(ctx):  # noqa: F811
+    yield from _base_cases(ctx)
+    from bitcoinutils.script import Script
+    allsp = list(_all_spends().values())
+    key = _S.pick(ctx.rng, [x for x in allsp if x[3] == 'key'], ctx.n(25), ctx.thorough)
+    scr = _S.pick(ctx.rng, [x for x in allsp if x[3] == 'script'], ctx.n(25), ctx.thorough)
+    for name, k, j, kind, sig, pk, leaf, scripts, amounts in key + scr:
+        ht = sig[64] if len(sig) == 65 else 0
+        tx = _S.lib_tx(name, k)
+        spks = [Script.from_raw(s.hex()).script for s in scripts]
+        leaf_toks = Script.from_raw(leaf.hex()).script if leaf else []
+        n = len(spks)
+        sp = ' '.join([str(n)] + [toks_str(s) for s in spks]) + ' ' + ' '.join([str(n)] + [str(x) for x in amounts])
+        ctx.count('fixture-sig-' + kind); ctx.count(f'fixture-ht-{ht:02x}')
+        def spec(ans, tx=tx, j=j, sp=sp, kind=kind, leaf_toks=leaf_toks, ht=ht):
+            return (f's:dig_v1 {tx_to_line(tx)} {j} {sp} {1 if kind == "script" else 0} {toks_str(leaf_toks)} {ht}',
+                    ans.replace(' chain-signature-verifies', ''))
+        yield Case(f'fx_sig_v1 {k} {j}', 's', nontrivial=True, tag='fixture-sig-' + kind, spec=spec)
+
+
+def impl(op, a, ctx):  # noqa: F811
+    if op != 'fx_sig_v1':
+        return _base_impl(op, a, ctx)
+    from bitcoinutils.script import Script
+    k, j = int(a[0]), int(a[1])
+    name, _, _, kind, sig, pk, leaf, scripts, amounts = _all_spends()[(k, j)]
+    ht = sig[64] if len(sig) == 65 else 0
+    tx = _S.lib_tx(name, k)
+    spks = [Script.from_raw(s.hex()) for s in scripts]
+    if kind == 'key':
+        d = tx.get_transaction_taproot_digest(j, spks, amounts, 0, sighash=ht)
+    else:
+        d = tx.get_transaction_taproot_digest(j, spks, amounts, 1, script=Script.from_raw(leaf.hex()), sighash=ht)
+    ok = _S.schnorr_verify(pk, d, sig[:64])
+    return f'ok {hx(d)}' + (' chain-signature-verifies' if ok else ' CHAIN-SIGNATURE-DOES-NOT-VERIFY')
